@@ -4,6 +4,7 @@ package c14
 
 import (
 	"fmt"
+	"math"
 
 	"pipelined.dev/signal"
 
@@ -134,6 +135,23 @@ func Check(c *Case) (res kit.Result) {
 		if back := view.Sample(i); !kit.SameVal(back, model[pos]) {
 			res.Failf("%s: wrote %s through the view, read back %s through the view", what, nv, back)
 			return
+		}
+		if kit.Info(c.T).Kind == kit.Float {
+			// values that compare equal but are different samples: +0 and -0
+			for _, z := range []float64{0, math.Copysign(0, -1), 0} {
+				zv := kit.FV(z)
+				view.SetSample(i, zv)
+				if back := view.Sample(i); !kit.SameVal(back, zv) {
+					res.Failf("%s: wrote %v (sign bit %v) through the view, read back %v (sign bit %v)", what, z, math.Signbit(z), back.F, math.Signbit(back.F))
+					return
+				}
+				model[pos] = root.Get(pos)
+				if !kit.SameVal(model[pos], zv) {
+					res.Failf("%s: wrote %v (sign bit %v) through the view, the parent holds sign bit %v", what, z, math.Signbit(z), math.Signbit(model[pos].F))
+					return
+				}
+			}
+			res.Class("signedZeroThroughView")
 		}
 		if C >= 2 && (c.Ch != 1 || i >= 1) {
 			res.Class("beyondSuiteCase")
